@@ -511,15 +511,25 @@ class Fn:
                 b = self.block(s.orelse, env, nxt) if s.orelse else nxt(env)
                 return f'(if {c} then\n{a}\nelse\n{b})'
             # join: variables modified in a branch and used afterwards
-            mod = sorted((self.assigned(s.body) | self.assigned(s.orelse)) & (self.used(rest) | set(env.get('__carried__', []))) & set(env))
+            ab, ae = self.assigned(s.body), self.assigned(s.orelse)
+            live = self.used(rest) | set(env.get('__carried__', []))
+            mod = sorted(m for m in (ab | ae) & live if m in env or (m in ab and m in ae))
             if not mod:
                 fail(s, 'if statement without effect')
-            tup = lambda e: '(' + ', '.join(e[m][0] for m in mod) + ')' if len(mod) > 1 else e[mod[0]][0]
+            types = {}
+
+            def tup(e):
+                for m in mod:
+                    if m not in e or isinstance(e[m], View):
+                        fail(s, f'variable {m} is not bound to a value on every path through the if statement')
+                    if types.setdefault(m, e[m][1]) != e[m][1]:
+                        fail(s, f'variable {m} has different types in the branches')
+                return '(' + ', '.join(e[m][0] for m in mod) + ')' if len(mod) > 1 else e[mod[0]][0]
             a = self.block(s.body, env, tup)
             b = self.block(s.orelse, env, tup) if s.orelse else tup(env)
             vs = {m: self.fresh(m) for m in mod}
             pat = "'(" + ', '.join(vs[m] for m in mod) + ')' if len(mod) > 1 else vs[mod[0]]
-            env2 = dict(env, **{m: (vs[m], env[m][1]) for m in mod})
+            env2 = dict(env, **{m: (vs[m], types[m]) for m in mod})
             return f'(let {pat} := (if {c} then\n{a}\nelse\n{b}) in\n{nxt(env2)})'
         if isinstance(s, ast.For):
             return self.forloop(s, env, nxt)
